@@ -102,12 +102,11 @@ Proof.
     | Hx : (_ || _) = true |- _ => apply orb_true_iff in Hx as [Hx|Hx]
     end;
     match goal with Hx : String.eqb ty _ = true |- _ => apply String.eqb_eq in Hx; auto end. }
-  rewrite Hn. cbn [negb].
+  destruct gid as [|gc gs]; [discriminate Hg|]. destruct name as [|nc ns]; [discriminate Hn|].
   destruct Hty as [-> | [-> | [-> | ->]]];
     destruct ch as [ch|], uri as [uri|], isid as [isid|];
     try (match goal with H : _ = true |- _ => cbn in H; discriminate H end);
-    destruct (String.eqb lang "") eqn:El, au, de, fo; cbn; rewrite ?Hg; cbn;
-    try (apply String.eqb_eq in El; subst lang); reflexivity.
+    destruct lang as [|lc ls], au, de, fo; reflexivity.
 Qed.
 
 (* ---------- EXT-X-STREAM-INF ---------- *)
